@@ -45,6 +45,7 @@ type InlineStats struct {
 	Threaded int            // return sites of inlined helpers specialised for the caller's test (inline_thread.go)
 	Lowered  int            // short-circuit operators lowered to if statements to reach a helper call
 	Unrolled int            // loops over constant tables written out row by row (inline_unroll.go)
+	Renamed  []string       // renames of unexported fields/functions undone (rename.go)
 }
 
 func (s *InlineStats) String() string {
@@ -53,6 +54,12 @@ func (s *InlineStats) String() string {
 	}
 	if s.Disabled != "" {
 		return "helper inlining: abandoned (" + s.Disabled + "); analysed as written"
+	}
+	if len(s.Renamed) > 0 {
+		r := s.Renamed
+		s2 := *s
+		s2.Renamed = nil
+		return "renames of unexported identifiers undone: " + strings.Join(r, ", ") + "; " + s2.String()
 	}
 	n := 0
 	var names []string
@@ -1252,6 +1259,12 @@ func retypecheckAll(pkgs []*packages.Package, main *packages.Package) error {
 func inlineHelpers(pkgs []*packages.Package, main *packages.Package) (*InlineStats, error) {
 	st := &InlineStats{Inlined: map[string]int{}, Left: map[string]int{}}
 	seq := 0
+	if log := renameBack(main); len(log) > 0 {
+		st.Renamed = log
+		if err := retypecheckAll(pkgs, main); err != nil {
+			return st, fmt.Errorf("after undoing renames %v: %v", log, err)
+		}
+	}
 	for round := 1; round <= maxInlineRounds; round++ {
 		in := newInliner(main, st, &seq)
 		if in.run() == 0 {
